@@ -228,3 +228,44 @@ def r3(rr, repo):
     rr.ob('every event is built with runId=self.run_id', ok, lm, emit, key='runid-used')
     rr.ob('an externally supplied Run object cannot replace the run id', not any('run or' in U(n) for n in ast.walk(emit) if isinstance(n, ast.BoolOp)) or
           not any(q.kwarg(c, 'run') is not None for mod3, c in q.all_package_calls(repo) if isinstance(c.func, ast.Attribute) and c.func.attr == '_emit_event'), lm, emit, key='runid-override')
+
+
+@rule('C18.R4', 'nothing follows the terminal event: wherever the filter emits the terminal event itself (exit(), the handlers of run()), the heartbeat - the only source of RUNNING events - was stopped before on '
+                'every path, by a call that no unrelated switch (telemetry export on/off, ...) can skip')
+def r4(rr, repo):
+    mod = repo.module(FILTER)
+    _, cls = repo.find(f'{FILTER}::Filter')
+    methods = {x.name: x for x in cls.body if isinstance(x, (ast.FunctionDef, ast.AsyncFunctionDef))}
+
+    def inline(call, rc, path):
+        f = rc.func
+        if isinstance(f, ast.Attribute) and isinstance(f.value, ast.Name) and f.value.id in ('self', 'filter') and f.attr in methods and f.attr not in ('exit', 'init', 'setup', 'shutdown', 'process', 'fini', 'run', 'loop_once'):
+            return (mod, methods[f.attr], f.value)
+        return None
+    n = 0
+    for name in ('exit',):
+        fn = methods.get(name)
+        if fn is None:
+            raise Unresolved(f'{FILTER}: Filter.{name} not found')
+        ev = Evaluator(repo, mod, inline=inline, max_depth=2)
+        ev.scope_node = fn
+        ev.explore_handlers = False
+        ps = ev.run(fn.body)
+        rr.paths += len(ps)
+        for p in ps:
+            term = [e for e in p.events if e.kind == 'call' and (e.term.endswith('.emitter.emit_stop') or e.term.endswith('.emitter.emit_complete'))]
+            for t in term:
+                n += 1
+                stops = [e for e in p.events[:p.events.index(t)] if e.kind == 'call' and e.term.endswith('.emitter.stop_lineage_heart_beat')]
+                rr.ob(f'Filter.{name}: the heartbeat is stopped before the terminal event is emitted, on every path that emits it', bool(stops), mod, t.node, witness=p.pc_text()[-200:], key=f'stop-before-terminal|{name}')
+    # handlers of run(): each terminal emission is directly preceded by the stop, under the same guard
+    run = methods['run']
+    for c in [c for c in q.calls_in(run, into_functions=False) if U(c.func).endswith('.emitter.emit_stop') or U(c.func).endswith('.emitter.emit_complete')]:
+        n += 1
+        st = q.enclosing_stmt(c)
+        from .zmq import stmt_list_containing
+        _, lst, idx = stmt_list_containing(st)
+        prev = lst[idx - 1] if idx > 0 else None
+        ok = prev is not None and isinstance(prev, ast.Expr) and isinstance(prev.value, ast.Call) and U(prev.value.func).endswith('.emitter.stop_lineage_heart_beat')
+        rr.ob('Filter.run: every terminal emission is directly preceded by stopping the heartbeat (same guard)', ok, mod, c, witness=U(prev)[:80] if prev is not None else 'first statement of its block', key='run-stop-before-terminal')
+    rr.floor('terminal emissions examined', n, 5, mod, cls)
